@@ -9,7 +9,7 @@ ASSUMPTIONS = [
     'stderr and an in-memory open() for -o (stub S7); replays use real temporary files',
     'the solver\'s share is the choice of file kinds and flags (finite, exhausted by forking); the value is that '
     'the command bodies, which no test executes on mixed lists, run over the whole choice space',
-    'S3 options of the CLI and argparse usage errors (SystemExit) are outside',
+    'S3 options of detect/inspect and argparse usage errors (SystemExit) are outside; merge -b/-p/-s runs against the fake S3',
 ]
 
 
@@ -42,6 +42,12 @@ def cells(tier):
             out.append(Cell(pid=PID, cid='C19/merge/%s/%s' % (scen, outmode), harness='h_collect:cli_merge_cell',
                             params={'scenario': scen, 'out': outmode}, sym=[('inc', 'bool'), ('ns', 'bool')], pre=[],
                             stubs=('hash',), timeout=T, cost=4))
+    # S3 merges: default suffix, explicit suffix, a non-.mos.xml object under the prefix
+    for scen, draft, suffix in (('complete', None, None), ('complete', 1, None), ('complete', 1, '.xml'), ('incomplete', 2, None),
+                                ('failing', None, '.mos.xml')):
+        out.append(Cell(pid=PID, cid='C19/merge-s3/%s/draft-%s/suffix-%s' % (scen, draft, suffix or 'default'),
+                        harness='h_collect:cli_merge_cell', params={'scenario': scen, 's3': True, 'draft': draft, 'suffix': suffix},
+                        sym=[('inc', 'bool'), ('ns', 'bool')], pre=[], stubs=('hash',), timeout=T, cost=4))
     out.append(Cell(pid=PID, cid='C19/merge/complete/bad-dir', harness='h_collect:cli_merge_cell',
                     params={'scenario': 'complete', 'out': 'bad-dir'}, sym=[('inc', 'bool'), ('ns', 'bool')], pre=[],
                     stubs=('hash',), timeout=T, cost=4))
